@@ -48,6 +48,9 @@ def one_case(ctx, ws, prep, pattern, probe=False):
     if not macros:
         ctx.event("nothing_factored")
         return
+    if RG.pattern_cost(inl) > 600:
+        ctx.event("skipped_too_large_after_extra_uses")
+        return
     cut = rng.randint(0, len(macros)) if rng.random() < 0.6 else 0
     ext, own = macros[:cut], macros[cut:]
     files = []
